@@ -111,6 +111,31 @@ void gen_case(std::vector<size_t> mult) {
         E.prove("smooth/B" + std::to_string(i) + "/pt" + std::to_string(j) + "/d" + std::to_string(k),
                 sym::eq(piece_deriv_at(B[i], v, j - 1, k, v[j]), piece_deriv_at(B[i], v, j, k, v[j])));
 #endif
+  // a generator is reusable: further calls on the same object (same order, lower order, same order again) give the same functions
+  {
+    stats().obligations++;
+    bool same = true;
+    std::string why;
+    try {
+      auto again = gen.template generateBSplines<p>();
+      same = again.size() == B.size();
+      for (size_t i = 0; same && i < B.size(); i++) same = (again[i] == B[i]);
+      if constexpr (p > 0) {
+        auto lower = gen.template generateBSplines<p - 1>();
+        same = same && lower.size() == m - p;
+        auto third = gen.template generateBSplines<p>();
+        same = same && third.size() == B.size();
+        for (size_t i = 0; same && i < B.size(); i++) same = (third[i] == B[i]);
+      }
+    } catch (bspline::exceptions::BSplineException &e) {
+      same = false;
+      why = e.what();
+    }
+    if (same)
+      stats().discharged++;
+    else
+      E.fail("generator-reusable", "structure", "a second call on the same generator gives different functions or throws " + why);
+  }
   // supplied-grid route: a distinct grid object with the same points gives equal splines
   {
     Grid<Real> grid2(v);
